@@ -21,7 +21,7 @@ FUNCS = CROP_FUNCS
 
 
 def body_partition(E, api, n, mode, b, shuf, farmer, cv, j1, j2, j3, j4, j5, resow=False):
-    api = concretize(api, 0, 2)        # 0 grid, 1 case tuples, 2 cases x sub-grid
+    api = concretize(api, 0, 3)        # 0 grid, 1 case tuples, 2 cases x sub-grid, 3 ONE case given as a bare dict x sub-grid
     n = concretize(n, 1, 10)
     mode = concretize(mode, 0, 2)
     N = 2 * n if api == 2 else n
@@ -52,8 +52,11 @@ def body_partition(E, api, n, mode, b, shuf, farmer, cv, j1, j2, j3, j4, j5, res
             combo_runner(fn, grid(n), constants=full_consts, verbosity=0)
         elif api == 1:
             case_runner(fn, ("a", "b"), case_list(n), constants=full_consts, verbosity=0)
-        else:
+        elif api == 2:
             combo_runner(fn, {"b": [20, 21]}, cases=[{"a": 10 + i} for i in range(n)],
+                         constants=full_consts, verbosity=0)
+        else:
+            combo_runner(fn, {"b": [20 + i for i in range(n)]}, cases={"a": 10, "c": 3},
                          constants=full_consts, verbosity=0)
         want = [dict(kw) for kw in log]
         if len(want) != N:
@@ -70,8 +73,11 @@ def body_partition(E, api, n, mode, b, shuf, farmer, cv, j1, j2, j3, j4, j5, res
             crop.sow_combos(grid(n), constants=consts, shuffle=shuffle, verbosity=0)
         elif api == 1:
             crop.sow_cases(("a", "b"), case_list(n), constants=consts, verbosity=0)
-        else:
+        elif api == 2:
             crop.sow_combos({"b": [20, 21]}, cases=[{"a": 10 + i} for i in range(n)],
+                            constants=consts, shuffle=shuffle, verbosity=0)
+        else:
+            crop.sow_combos({"b": [20 + i for i in range(n)]}, cases={"a": 10, "c": 3},
                             constants=consts, shuffle=shuffle, verbosity=0)
         if cbool(resow):
             # "you can safely resow": a second sow of the same crop, by the same object or by one re-created
@@ -175,6 +181,11 @@ CONDS = (
                  ["1 <= n <= 3 and 0 <= mode <= 2 and 1 <= b <= 2 * n + 2 and shuf == 0 and 0 <= farmer <= 1",
                   "j1 == 0 and j2 == 0 and j3 == 0 and j4 == 0 and j5 == 0", "not resow"], fixed=dict(api=2),
                  timeout=300, tiers=("quick",), bounds="cases x sub-grid, N=2n<=6, all batchings, farmer on/off")]
+    + [make_cond(_G, "partition_api3", body_partition, _SIG,
+                 ["1 <= n <= 6 and 0 <= mode <= 2 and 1 <= b <= n + 2 and shuf == 0 and farmer == 0",
+                  "j1 == 0 and j2 == 0 and j3 == 0 and j4 == 0 and j5 == 0", "not resow"], fixed=dict(api=3),
+                 timeout=300, bounds="one case given as a bare dict of two arguments x a sub-grid of N<=6 values, "
+                                     "all batchings")]
     + split_conds(_G, "partition_shuffled", body_partition, _SIG,
                   ["2 <= n <= 4 and 1 <= mode <= 2 and 1 <= b <= 3 and 1 <= shuf <= 2 and farmer == 0",
                    _J, "j4 == 0 and j5 == 0", "not resow"], "api", [0, 1], timeout=300,
